@@ -23,8 +23,11 @@ pub fn run_case(f: &[&str]) -> String {
     let _ = std::fs::remove_file(&path);
     // kind n: a UNIX-socket server built with Server::from_listener from a NON-BLOCKING listener: accept() fails at once
     // (WouldBlock), the accept loop ends and closes the listener long before the server is dropped
+    // kind 2: a TCP server bound to a specific address that is not 127.0.0.1
     let mut server: Option<Server> = Some(if kind == "t" {
         Server::http("127.0.0.1:0").unwrap()
+    } else if kind == "2" {
+        Server::http("127.0.0.2:0").unwrap()
     } else if kind == "n" {
         let l = std::os::unix::net::UnixListener::bind(&path).unwrap();
         l.set_nonblocking(true).unwrap();
@@ -32,7 +35,7 @@ pub fn run_case(f: &[&str]) -> String {
     } else {
         Server::http_unix(&path).unwrap()
     });
-    let addr = if kind == "t" { Some(server.as_ref().unwrap().server_addr().to_ip().unwrap()) } else { None };
+    let addr = if kind == "t" || kind == "2" { Some(server.as_ref().unwrap().server_addr().to_ip().unwrap()) } else { None };
     let connect = |timeout_ms: u64| -> Result<crate::cv::Conn, String> {
         if let Some(a) = addr {
             std::net::TcpStream::connect_timeout(&a, Duration::from_millis(timeout_ms)).map(crate::cv::Conn::T).map_err(|e| format!("{:?}", e.kind()))
@@ -104,7 +107,7 @@ pub fn run_case(f: &[&str]) -> String {
             }
             out.push(format!("l={}", if open { "listening" } else { "closed" }));
         } else if op == "p" {
-            out.push(format!("p={}", if kind == "t" { "na" } else if path.exists() { "there" } else { "gone" }));
+            out.push(format!("p={}", if kind == "t" || kind == "2" { "na" } else if path.exists() { "there" } else { "gone" }));
         } else if op == "a" {
             let mut urls = Vec::new();
             for rq in held.drain(..) {
@@ -152,8 +155,8 @@ pub fn run_case(f: &[&str]) -> String {
 
 /// Does the kernel still list a listening socket bound to the server's address?
 fn listener_open(kind: &str, path: &std::path::Path, port: Option<u16>) -> bool {
-    if kind == "t" {
-        let want = format!("0100007F:{:04X}", port.unwrap_or(0));
+    if kind == "t" || kind == "2" {
+        let want = format!("0{}00007F:{:04X}", if kind == "2" { 2 } else { 1 }, port.unwrap_or(0));
         let t = std::fs::read_to_string("/proc/net/tcp").unwrap_or_default();
         t.lines().skip(1).any(|l| {
             let f: Vec<&str> = l.split_whitespace().collect();
